@@ -58,6 +58,32 @@ Theorem c15_wrong_password_never_auths : forall outer inner e k,
 Proof. exact wrong_password_never_auths. Qed.
 Print Assumptions c15_wrong_password_never_auths.
 
+(* the connection's authd flag: the source has exactly one statement that changes it (t38x rejects
+   any other), and in the model of that statement a message leaves the flag true only if it was
+   true before or the message presented the configured password *)
+Theorem c15_authd_only_by_password :
+  authd_assignments = 1 /\
+  forall outer inner e k, gate_authd outer inner e k = true ->
+    k_authd k = true \/ presents_password outer e k.
+Proof. exact authd_only_by_password. Qed.
+Print Assumptions c15_authd_only_by_password.
+
+(* a connection that was used while no password was configured (or never presented it) is not
+   authenticated, and once requirepass is set its next message is gated like a new connection's:
+   the configuration may differ from message to message (cm_env) *)
+Theorem c15_stale_connection : forall ms m,
+  Forall (fun x => ~ presents_password (cm_outer x) (cm_env x) (cmsg_cred false x)) ms ->
+  e_requirepass (cm_env m) = true ->
+  cm_http_auth m <> Some true -> (cm_outer m = "auth" -> cm_auth_arg_ok m = false) ->
+  match gate (cm_outer m) (cm_inner m) (cm_env m) (cmsg_cred (conn_authd ms false) m) with
+  | VEarly => In (cm_outer m) ["ping"; "echo"]
+  | VErr _ => True
+  | VAuthOK => False
+  | VRun _ _ _ => In (cm_outer m) ["output"; "healthz"]
+  end.
+Proof. exact stale_connection_gated. Qed.
+Print Assumptions c15_stale_connection.
+
 (* statement order in handleInputCommand: the auth block precedes the lock switch and the handler
    call; the TIMEOUT rewrite precedes the lock switch (so a wrapped command is gated as itself) *)
 Theorem c15_gate_order :
@@ -79,3 +105,19 @@ Example c15_nonvacuous :
   arm_verdict (arm_of lock_table "set") (mkEnv false true false false false) = Some ENotLeader /\
   gate "get" "get" (mkEnv false false true false true) (mkCred false None false) = VErr EAuthRequired.
 Proof. vm_compute. repeat split. Qed.
+
+(* non-vacuity of the connection theorems: GET and SET while no password is configured leave the
+   flag false (and satisfy the hypothesis), AUTH with the right password sets it, a wrong one not *)
+Example c15_stale_nonvacuous :
+  let nopw := mkEnv false false true false false in
+  let pw := mkEnv false false true false true in
+  let used := [mkCmsg "get" "get" nopw None false; mkCmsg "set" "set" nopw None false] in
+  conn_authd used false = false /\
+  Forall (fun x => ~ presents_password (cm_outer x) (cm_env x) (cmsg_cred false x)) used /\
+  gate "set" "set" pw (cmsg_cred (conn_authd used false) (mkCmsg "set" "set" pw None false)) = VErr EAuthRequired /\
+  conn_authd (used ++ [mkCmsg "auth" "auth" pw None true]) false = true /\
+  conn_authd (used ++ [mkCmsg "auth" "auth" pw None false]) false = false.
+Proof.
+  cbv zeta. repeat split; try (vm_compute; reflexivity).
+  repeat constructor; intros [H _]; discriminate H.
+Qed.
